@@ -22,8 +22,10 @@ import (
 	"io"
 	"net"
 	"net/http"
+	"os"
 	"path/filepath"
 	"regexp"
+	"sort"
 	"strings"
 	"sync"
 	stdtime "time"
@@ -48,6 +50,13 @@ type fakeEndpoint struct {
 	n       int      // requests seen
 	okBody  []string // bodies answered with 2xx, in order
 	allBody []string
+	down    bool // while set every request is dropped, whatever the script says
+}
+
+func (ep *fakeEndpoint) SetDown(d bool) {
+	ep.mu.Lock()
+	ep.down = d
+	ep.mu.Unlock()
 }
 
 func newFakeEndpoint(script []int) *fakeEndpoint {
@@ -61,7 +70,9 @@ func newFakeEndpoint(script []int) *fakeEndpoint {
 		body, _ := io.ReadAll(r.Body)
 		ep.mu.Lock()
 		st := 200
-		if ep.n < len(ep.script) {
+		if ep.down {
+			st = 0
+		} else if ep.n < len(ep.script) {
 			st = ep.script[ep.n]
 		}
 		ep.n++
@@ -451,6 +462,237 @@ func checkC10Fault(job *Job, res *Result) {
 	}
 	res.States += len(scripts)
 	res.Bounds["max_script_length"] = maxLen
+	c10Outage(job, res, &caseNo)
+	c10ExpirySweep(job, res, &caseNo)
+}
+
+// c10Outage: the hook queue lives in a file (queue.db, the default); while the
+// endpoint is down (or up) the server goes through every sequence of
+// {W write, R clean restart, T one retry period}; then the endpoint recovers.
+// Every write's notification must arrive exactly once, in write order.
+func c10Outage(job *Job, res *Result, caseNo *int) {
+	maxLen := 4
+	if job.Tier == "thorough" {
+		maxLen = 6
+	}
+	if l, ok := job.Params["outagelen"].(float64); ok {
+		maxLen = int(l)
+	}
+	var seqs []string
+	var gen func(cur string)
+	gen = func(cur string) {
+		if strings.Contains(cur, "W") && strings.Contains(cur, "R") {
+			seqs = append(seqs, cur)
+		}
+		if len(cur) == maxLen {
+			return
+		}
+		for _, a := range "WRT" {
+			gen(cur + string(a))
+		}
+	}
+	gen("")
+	for _, seq := range seqs {
+		for _, down := range []bool{true, false} {
+			*caseNo++
+			if *caseNo%job.NShards != job.Shard {
+				continue
+			}
+			if res.OverBudget() {
+				res.Cap("time budget hit (outage sequences)")
+				return
+			}
+			seq, down := seq, down
+			ep := newFakeEndpoint(nil)
+			ep.SetDown(down)
+			viol := func(sig, detail string) {
+				res.Violate("C10/webhook-outage-"+sig, fmt.Sprintf("%s  [events %s (W write, R restart, T 0.6 s) with the endpoint %s, then the endpoint recovers; queue in queue.db]", detail, seq, map[bool]string{true: "down", false: "up"}[down]),
+					map[string]any{"outage": seq, "down": down})
+			}
+			x := runExec(job, freezeAllBut("manager"), func(x *Exec) {
+				fileQ := func(o *Options) { o.QueueFileName = "" }
+				in := x.Start("L", x.dir+"/L", 9001, fileQ)
+				c := x.Dial(in.Addr)
+				c.Do("SETHOOK", "hk", ep.URL(), "NEARBY", "k", "FENCE", "DETECT", "inside", "POINT", "1", "1", "100000")
+				var want []string
+				gen := 1
+				for _, ev := range seq {
+					switch ev {
+					case 'W':
+						id := fmt.Sprintf("o%02d", len(want))
+						if r := c.Do("SET", "k", id, "POINT", "1", "1"); r.String() != "+OK" {
+							viol("write", "SET replied "+r.String())
+						}
+						want = append(want, id+":inside")
+						vsched.Quiesce()
+					case 'T':
+						vsched.Sleep(int64(600 * stdtime.Millisecond))
+						vsched.Quiesce()
+					case 'R':
+						c.Close()
+						in.Stop()
+						// the process exits: its remaining threads (hook managers are
+						// not stopped by the shutdown path) never run again
+						vsched.Paused[in.Name] = true
+						var err error
+						in, err = x.TryStart(fmt.Sprintf("L%d", gen), x.dir+"/L", 9001+gen, fileQ)
+						gen++
+						if err != nil {
+							viol("restart", fmt.Sprintf("server does not restart: %v", err))
+							return
+						}
+						c = x.Dial(in.Addr)
+					}
+				}
+				ep.SetDown(false)
+				for i := 0; i < len(want)+6 && len(ep.OK()) < len(want); i++ {
+					vsched.Sleep(int64(600 * stdtime.Millisecond))
+					vsched.Quiesce()
+				}
+				vsched.Sleep(int64(1200 * stdtime.Millisecond)) // anything sent twice shows up now
+				vsched.Quiesce()
+				var got []string
+				for _, m := range ep.OK() {
+					got = append(got, msgKey(m))
+				}
+				if strings.Join(got, ",") != strings.Join(want, ",") {
+					sig := "order"
+					if len(got) < len(want) {
+						sig = "lost"
+					} else if len(got) > len(want) {
+						sig = "duplicated"
+					}
+					viol(sig, fmt.Sprintf("successfully delivered %v (%d requests in all), expected %v", got, ep.Requests(), want))
+				}
+				res.DistinctS(fmt.Sprint("outage", seq, down, len(got)))
+			})
+			ep.Close()
+			if x.Err != "" || len(x.Crashes) > 0 {
+				viol("hang-or-crash", fmt.Sprint(x.Err, x.Crashes))
+			}
+			res.Evaluations++
+			res.Transitions++
+			res.Validated++
+		}
+	}
+	res.States += len(seqs)
+	res.Bounds["max_outage_events"] = maxLen
+}
+
+var reKey = regexp.MustCompile(`"key":"([^"]*)"`)
+
+// c10ExpirySweep: n objects under one fence reach their deadline; whether in
+// one sweep of the expirer or in several, every receiver (channel, pattern
+// subscriber, live fence, webhook) gets exactly one "del" per object, in the
+// order of the DEL records in the log.
+func c10ExpirySweep(job *Job, res *Result, caseNo *int) {
+	for _, n := range []int{1, 2, 3, 6} {
+		for _, spread := range []string{"same-deadline", "same-sweep", "separate-sweeps"} {
+			if n == 1 && spread != "same-deadline" {
+				continue
+			}
+			*caseNo++
+			if *caseNo%job.NShards != job.Shard {
+				continue
+			}
+			n, spread := n, spread
+			ep := newFakeEndpoint(nil)
+			viol := func(sig, detail string) {
+				res.Violate("C10/expiry-"+sig, fmt.Sprintf("%s  [%d objects expiring, %s]", detail, n, spread), map[string]any{"expiry": n, "spread": spread})
+			}
+			x := runExec(job, freezeAllBut("manager", "backgroundExpiring"), func(x *Exec) {
+				in := x.Start("L", x.dir+"/L", 9001, nil)
+				c := x.Dial(in.Addr)
+				fence := w("NEARBY k FENCE POINT 1 1 100000")
+				c.Do(append([]string{"SETCHAN", "ch"}, fence...)...)
+				c.Do(append([]string{"SETHOOK", "hk", ep.URL()}, fence...)...)
+				sub := x.Dial(in.Addr)
+				sub.Send(respCmd("SUBSCRIBE", "ch"))
+				psub := x.Dial(in.Addr)
+				psub.Send(respCmd("PSUBSCRIBE", "c*"))
+				live := x.Dial(in.Addr)
+				live.Send(respCmd(fence...))
+				vsched.Quiesce()
+				for i := 0; i < n; i++ {
+					ex := "1"
+					switch spread {
+					case "same-sweep":
+						ex = fmt.Sprintf("1.00%d", i)
+					case "separate-sweeps":
+						ex = fmt.Sprintf("%d.5", 1+i)
+					}
+					c.Do("SET", "k", fmt.Sprintf("t%d", i), "EX", ex, "POINT", "1", "1")
+				}
+				vsched.Quiesce()
+				recvPayloads(sub)
+				recvPayloads(psub)
+				recvPayloads(live)
+				nSet := len(ep.OK())
+				vsched.WaitUntilOr(func() bool { return len(ep.OK()) >= 2*n }, int64(3*stdtime.Second))
+				nSet = 2 * n // enter + inside per SET
+				_ = nSet
+				before := len(ep.OK())
+				vsched.Sleep(int64(stdtime.Duration(n+3) * stdtime.Second))
+				vsched.Quiesce()
+				vsched.WaitUntilOr(func() bool { return len(ep.OK())-before >= n }, int64(3*stdtime.Second))
+				vsched.Quiesce()
+				// order of the DEL records in the log (a client round trip flushes the buffer)
+				c.Do("PING")
+				var want []string
+				data, _ := os.ReadFile(filepath.Join(in.Dir, "appendonly.aof"))
+				for off := 0; off < len(data); {
+					v, rest, ok, err := parseRESP(data[off:])
+					if err != nil || !ok {
+						break
+					}
+					off = len(data) - len(rest)
+					if len(v.A) == 3 && strings.EqualFold(v.A[0].S, "del") {
+						want = append(want, v.A[2].S)
+					}
+				}
+				if len(want) != n {
+					viol("not-logged", fmt.Sprintf("the log has %d DEL records %v", len(want), want))
+				}
+				dels := func(raw []string) []string {
+					var out []string
+					for _, m := range raw {
+						if pm := c05Parse(m); pm.Cmd == "del" {
+							out = append(out, pm.ID)
+						}
+					}
+					return out
+				}
+				got := map[string][]string{"channel": dels(recvPayloads(sub)), "pattern": dels(recvPayloads(psub)), "live": dels(recvPayloads(live)), "webhook": dels(ep.OK()[before:])}
+				for _, r := range []string{"channel", "pattern", "live", "webhook"} {
+					if strings.Join(got[r], ",") != strings.Join(want, ",") {
+						sig := "order"
+						if len(got[r]) < len(want) {
+							sig = "lost"
+						} else if len(got[r]) > len(want) {
+							sig = "duplicated"
+						} else if strings.Join(sortedCopy(got[r]), ",") != strings.Join(sortedCopy(want), ",") {
+							sig = "lost-and-duplicated"
+						}
+						viol(sig+":"+r, fmt.Sprintf("%s received del for %v, the log deleted %v", r, got[r], want))
+					}
+				}
+				res.DistinctS(fmt.Sprint("expiry", n, spread, want))
+			})
+			ep.Close()
+			if x.Err != "" || len(x.Crashes) > 0 {
+				viol("hang-or-crash", fmt.Sprint(x.Err, x.Crashes))
+			}
+			res.Evaluations++
+			res.Transitions++
+			res.Validated++
+		}
+	}
+}
+
+func sortedCopy(a []string) []string {
+	b := append([]string(nil), a...)
+	sort.Strings(b)
+	return b
 }
 
 // ---------------------------------------------------------------- SEQ (registry)
